@@ -129,9 +129,15 @@ impl VLoader {
     }
 }
 
-impl Loader for VLoader {
-    type File = VFile;
-    fn find_file(&self, url: &str) -> Result<Option<VFile>, LoadError> {
+impl VLoader {
+    /// One probe = one entry of the call log (index = fault index).  `roots`: the search
+    /// prefixes this probe walks; `label`: what it is logged as.
+    fn probe(
+        &self,
+        label: String,
+        roots: &[String],
+        url: &str,
+    ) -> Result<Option<VFile>, LoadError> {
         let mut log = self.log.lock().unwrap();
         let idx = log.calls.len();
         if self.limit > 0 && idx >= self.limit {
@@ -141,7 +147,7 @@ impl Loader for VLoader {
             drop(log);
             std::panic::panic_any(Diverged);
         }
-        log.calls.push((url.to_string(), false));
+        log.calls.push((label, false));
         let fault = self.faults.get(&idx).copied();
         if fault == Some('L') {
             log.fired += 1;
@@ -153,7 +159,7 @@ impl Loader for VLoader {
         if url.is_empty() {
             return Ok(None);
         }
-        for root in &self.roots {
+        for root in roots {
             let full = format!("{root}{url}");
             if let Some(p) = self.resolve(&full) {
                 log.calls[idx].1 = true;
@@ -165,6 +171,54 @@ impl Loader for VLoader {
                     data: Cursor::new(self.files[&p].clone()),
                     fail,
                 }));
+            }
+        }
+        Ok(None)
+    }
+}
+
+impl Loader for VLoader {
+    type File = VFile;
+
+    /// Trees without `Loader::find_first`: one log entry per call, the loader walks its
+    /// search path (as `FsLoader::find_file` does).
+    #[cfg(not(rsass_has_find_first))]
+    fn find_file(&self, url: &str) -> Result<Option<VFile>, LoadError> {
+        self.probe(url.to_string(), &self.roots, url)
+    }
+
+    /// Trees with `Loader::find_first` (commit 31d0dab): every (search path, name) probe is
+    /// its own log entry `<prefix><name>`, also for the single-name lookups that still come
+    /// through `find_file`.
+    #[cfg(rsass_has_find_first)]
+    fn find_file(&self, url: &str) -> Result<Option<VFile>, LoadError> {
+        for root in &self.roots {
+            if let Some(f) = self.probe(
+                format!("{root}{url}"),
+                std::slice::from_ref(root),
+                url,
+            )? {
+                return Ok(Some(f));
+            }
+        }
+        Ok(None)
+    }
+
+    /// mirrors `FsLoader::find_first`: all names in one search path before the next one
+    #[cfg(rsass_has_find_first)]
+    fn find_first(
+        &self,
+        urls: &[String],
+    ) -> Result<Option<(usize, VFile)>, LoadError> {
+        for root in &self.roots {
+            for (i, url) in urls.iter().enumerate() {
+                if let Some(f) = self.probe(
+                    format!("{root}{url}"),
+                    std::slice::from_ref(root),
+                    url,
+                )? {
+                    return Ok(Some((i, f)));
+                }
             }
         }
         Ok(None)
@@ -186,6 +240,24 @@ impl Loader for RecFs {
         let r = self.inner.find_file(url);
         let hit = matches!(r, Ok(Some(_)));
         self.log.lock().unwrap().calls.push((url.to_string(), hit));
+        r
+    }
+
+    /// delegate, so that the real `FsLoader::find_first` decides the order; its individual
+    /// probes are not visible, the call is logged as one entry (the trace of `loadfs` cases
+    /// is not compared on such trees)
+    #[cfg(rsass_has_find_first)]
+    fn find_first(
+        &self,
+        urls: &[String],
+    ) -> Result<Option<(usize, std::fs::File)>, LoadError> {
+        let r = self.inner.find_first(urls);
+        let hit = matches!(r, Ok(Some(_)));
+        self.log
+            .lock()
+            .unwrap()
+            .calls
+            .push((urls.join(" "), hit));
         r
     }
 }
